@@ -1,2 +1,46 @@
-(* C11 — placeholder while the framing proofs are being written. *)
-From DV Require Import Wire.Message.
+(* C11 — message framing is independent of how the byte stream is chunked.
+   Statements only; proofs in Proofs/LoaderProofs.v. *)
+From DV Require Import Lib.Base Wire.Message Proofs.LoaderProofs.
+Local Open Scope N_scope.
+
+(* Full statement: for every partition of every stream, the messages produced and
+   the corruption verdict equal those of the unsplit stream (reason codes are not
+   part of the outcome: see DESIGN.md C11). *)
+Definition C11_full_statement : Prop :=
+  forall chunks, outcome (feed_all loader_new chunks) = outcome (feed loader_new (concat chunks) 0).
+
+(* Proved for all streams and partitions GIVEN that the verdict of load_message on
+   a complete message does not depend on the bytes that follow it in the buffer
+   ([load_local]); that locality is tied to the code by the correspondence run
+   (every case is run chunked and unsplit) and not yet proved of the model. *)
+Theorem C11_chunking_partial : load_local -> C11_full_statement.
+Proof. exact chunking_from_empty. Qed.
+Print Assumptions C11_chunking_partial.
+
+(* the framing decision reads only the 16-byte fixed header *)
+Theorem C11_have_message_local : forall max d c, (16 <= length d)%nat ->
+  have_message max (d ++ c) =
+  match have_message max d with
+  | HaveInvalid r => HaveInvalid r
+  | HaveOk le fl hl bl _ => HaveOk le fl hl bl (bl + hl <=? nlen (d ++ c))
+  end.
+Proof. exact have_message_app. Qed.
+Print Assumptions C11_have_message_local.
+
+(* no message is produced after corruption is detected, whatever arrives later *)
+Theorem C11_nothing_after_corruption : forall l chunks, l_corrupted l = true -> outcome (feed_all l chunks) = outcome l.
+Proof. exact corruption_is_final. Qed.
+Print Assumptions C11_nothing_after_corruption.
+
+(* messages complete before the first invalid one are all delivered, and nothing is
+   lost or invented: queued messages ++ unconsumed buffer = the bytes fed *)
+Theorem C11_prefix_delivered : forall l c, consumed (feed l c 0) ++ l_buf (feed l c 0) = consumed l ++ l_buf l ++ c.
+Proof. exact feed_conservation. Qed.
+Print Assumptions C11_prefix_delivered.
+
+(* non-vacuity: a two-message stream split inside the fixed header *)
+Definition ex_msg : bytes := [108;2;0;1; 0;0;0;0; 1;0;0;0; 8;0;0;0; 5;1;117;0; 1;0;0;0].
+Example ex_two : length (l_msgs (feed_all loader_new [firstn 5 ex_msg; skipn 5 ex_msg ++ ex_msg])) = 2%nat.
+Proof. vm_compute. reflexivity. Qed.
+Example ex_two_unsplit : length (l_msgs (feed loader_new (ex_msg ++ ex_msg) 0)) = 2%nat.
+Proof. vm_compute. reflexivity. Qed.
